@@ -31,7 +31,9 @@ def units(tier):
 
 def strategy(tier, unit):
     a = S.fl(3.0, 9.0)
-    red = st.tuples(a, S.fl(1.0, 1.7), S.fl(1.0, 1.7), S.fl(75, 105), S.fl(75, 105), S.fl(75, 105)).map(
+    # edge-length ratios: generic, exactly 1 (ties) or a hair above 1 (near-ties, 1e-12 .. 1e-4 relative)
+    ratio = st.one_of(S.fl(1.0, 1.7), S.fl(1.0, 1.7), st.just(1.0), S.logfl(1e-12, 1e-4).map(lambda d: 1.0 + d))
+    red = st.tuples(a, ratio, ratio, S.fl(75, 105), S.fl(75, 105), S.fl(75, 105)).map(
         lambda t: [t[0], t[0] * t[1], t[0] * t[1] * t[2], t[3], t[4], t[5]])
     fam = st.one_of(
         st.builds(lambda x: [x, x, x, 90.0, 90.0, 90.0], a),
